@@ -612,14 +612,14 @@ theorem rootFinish_inj (hf : HashFn α H) (inj : Inj hf) (s1 s2 : Segment α H) 
         (s1.id.posRange size).1 ≤ p && p ≤ (s1.id.posRange size).2).reverse = peaksIn s1.id size := rfl
     rw [hpk] at h1 h2
     cases hb1 : bagPeaks hf s1 bm size stk1 none (peaksIn s1.id size) with
-    | err e => rw [hb1] at h1; cases h1
-    | panic => rw [hb1] at h1; cases h1
+    | err e => simp only [hb1] at h1; cases h1
+    | panic => simp only [hb1] at h1; cases h1
     | ok w1 =>
       cases hb2 : bagPeaks hf s2 bm size stk2 none (peaksIn s1.id size) with
-      | err e => rw [hb2] at h2; cases h2
-      | panic => rw [hb2] at h2; cases h2
+      | err e => simp only [hb2] at h2; cases h2
+      | panic => simp only [hb2] at h2; cases h2
       | ok w2 =>
-        rw [hb1] at h1; rw [hb2] at h2
+        simp only [hb1] at h1; simp only [hb2] at h2
         obtain ⟨hv, hbk⟩ := bagPeaks_inj hf inj s1 s2 bm size _ _ _ _ _ _ _ hb1 hb2 hs rfl
         cases w1 with
         | none => cases h1
@@ -638,5 +638,36 @@ theorem rootFinish_inj (hf : HashFn α H) (inj : Inj hf) (s1 s2 : Segment α H) 
               rw [← hl2]; exact List.take_length
             rw [t1, t2] at htake
             exact ⟨htake, hpr⟩
+
+theorem root_inj (hf : HashFn α H) (inj : Inj hf) (s1 s2 : Segment α H) (hid : s1.id = s2.id)
+    (size : Nat) (bm : Option (Nat → Bool)) (wf : WellFormedRange s1.id size) (o1 o2 : Option H)
+    (h1 : s1.root hf size bm = .ok o1) (h2 : s2.root hf size bm = .ok o2) :
+    o1.isSome = o2.isSome ∧ (o1 = o2 → segReads hf s1 size bm = segReads hf s2 size bm) := by
+  unfold Segment.root at h1 h2
+  unfold segReads
+  rw [← hid] at h2 ⊢
+  cases hl1 : rootLoop hf s1 bm size ([], s1.leafPos.zip s1.leafData) (s1.id.positions size) with
+  | err e => simp only [hl1] at h1; cases h1
+  | panic => simp only [hl1] at h1; cases h1
+  | ok f1 =>
+    cases hl2 : rootLoop hf s2 bm size ([], s2.leafPos.zip s2.leafData) (s1.id.positions size) with
+    | err e => simp only [hl2] at h2; cases h2
+    | panic => simp only [hl2] at h2; cases h2
+    | ok f2 =>
+      simp only [hl1] at h1; simp only [hl2] at h2
+      simp only at h1 h2 ⊢
+      obtain ⟨hsh, hback⟩ := rootLoop_inj hf inj s1 s2 bm size _ _ _ _ _ hl1 hl2 rfl
+      have d1' := rootLoop_depth0 hf s1 bm size _ _ _ hl1
+      have d2' := rootLoop_depth0 hf s2 bm size _ _ _ hl2
+      unfold WellFormedRange at wf
+      rw [wf] at d1' d2'
+      simp only [Option.some.injEq] at d1' d2'
+      obtain ⟨hv, hfin⟩ := rootFinish_inj hf inj s1 s2 hid size bm f1.1 f2.1 o1 o2 hsh d1'.symm d2'.symm h1 h2
+      refine ⟨hv, ?_⟩
+      intro he
+      obtain ⟨hstk, hfr⟩ := hfin he
+      have := (hback hstk).2
+      rw [this, hfr]
+
 
 end GV.Seg
